@@ -57,6 +57,24 @@ DecTotal ==
   /\ d.pos <= Len(bytes)
   /\ (d.ok => WFTree(d.g))
   /\ (~d.ok => d.err \in {"eof", "byteorder", "unknowntype", "unsupportedtype", "toolarge", "childtype", "childlayout"})
-Via == CASE (Len(bytes) + lim[1]) % 5 = 0 -> "hex" [] (Len(bytes) + lim[2]) % 7 = 0 /\ flavor = "wkb" /\ ~nan -> "sql" [] OTHER -> ""
-Emit == PrintT(<<"CASE", ToJson([bytes |-> bytes, flavor |-> flavor, nan |-> nan, lim |-> lim, via |-> Via])>>)
+\* how the bytes reach the decoder: stream reader (""), hex wrapper, or Scan of a database/sql wrapper of either flavour
+\* (the wrappers take no options, so not in NaN mode).  The wrapper is the one of the type id the input shows (every
+\* other time) or any of the eight, so that malformed input reaches every typed wrapper of wkb and ewkb.
+Wraps == <<"ANY", "PT", "LS", "PG", "MPT", "MLS", "MPG", "GC">>
+Via == CASE (Len(bytes) + lim[1]) % 5 = 0 -> "hex" [] (Len(bytes) + lim[2]) % 7 = 0 /\ ~nan -> "sql" [] OTHER -> ""
+H == (Len(bytes) \div 7) + lim[1] + 3 * lim[3] + 4 + (IF Len(bytes) >= 7 THEN bytes[6] + bytes[7] ELSE 0)
+\* 1000 % 8 = 0: the low byte of the type word mod 8 is the type id in ISO and EWKB codes alike
+TypeGuess == IF Len(bytes) >= 5 THEN (IF bytes[1] = 0 THEN bytes[5] ELSE bytes[2]) % 8 ELSE 0
+Wrap == IF Via # "sql" THEN ""
+        ELSE LET w == Wraps[1 + (IF H % 2 = 0 THEN TypeGuess ELSE (H \div 2) % 8)] IN
+             IF w = "ANY" /\ flavor = "ewkb" THEN "GC" ELSE w              \* ewkb has no untyped wrapper
+Emit == PrintT(<<"CASE", ToJson([bytes |-> bytes, flavor |-> flavor, nan |-> nan, lim |-> lim, via |-> Via, wrap |-> Wrap,
+                                 hexcodes |-> <<>>])>>)
+\* the unmutated encodings, handed to the seeded generators of tools/props/c04.py (splices, multi-byte flips, hex strings)
+InitBase == \E g \in Bases, order \in {"NDR", "XDR"}, fl \in {"wkb", "wkbnan", "ewkb"} :
+              LET sym == Enc(g, order, fl) IN
+              /\ sym # <<>>
+              /\ bytes = Concrete(sym, ImgTab)
+              /\ flavor = (IF fl = "ewkb" THEN "ewkb" ELSE "wkb") /\ nan = (fl = "wkbnan") /\ lim = <<-1, -1, -1>>
+EmitBase == PrintT(<<"BASE", ToJson([bytes |-> bytes, flavor |-> flavor, nan |-> nan])>>)
 ====
